@@ -17,6 +17,7 @@ def tables():
         'sparse': [t for n, t in enumerate(full) if n % 3 != 1] + [('a', 1, 100, D('0.25'))],
         'dups': full + [('a', 2, 50, D('5')), ('c', 3, -1, D('-1'))],
         'one': [('a', 1, 5, D('1'))],
+        'gaps': [('a', 1, 1, D('1')), ('a', 4, 4, D('4')), ('b', 2, 2, D('2')), ('b', 3, 3, D('3')), ('c', 4, 9, D('9')), ('d', 1, 7, D('7')), ('e', 3, 6, D('6')), ('e', 4, 5, D('5'))],
         'empty': [],
     }
 
@@ -125,6 +126,22 @@ def cases(tier, seed):
     return out
 
 
+def invalid_refs(res):
+    conn = make_conn(**{n: (COLS, r) for n, r in tables().items()})
+    for q in ['SELECT r, k, sum(x) FROM #full GROUP BY r, k, y PIVOT BY 1, 4', 'SELECT r, k, sum(x) FROM #full GROUP BY r, k ORDER BY sum(y) PIVOT BY 4, 2', 'SELECT r, k, sum(x) FROM #full GROUP BY r, k PIVOT BY 1, 1',
+              'SELECT r, k, sum(x) FROM #full GROUP BY r, k PIVOT BY 0, 2', 'SELECT r, k, sum(x) FROM #full GROUP BY r, k PIVOT BY r, nosuch', 'SELECT r, k, sum(x) AS s FROM #full GROUP BY r, k PIVOT BY r, s',
+              'SELECT r, k, x FROM #full PIVOT BY r, k', 'SELECT r, k, sum(x) FROM #full GROUP BY r, k HAVING count(*) > 0 PIVOT BY 1, 4']:
+        res.case(q, {'query': q})
+        try:
+            conn.execute(q).fetchall()
+            got = 'accepted'
+        except beanquery.CompilationError:
+            continue
+        except Exception as e:
+            got = f'{type(e).__name__}: {e}'
+        res.violation('h15:invalid-reference:' + q[-20:], 'invalid PIVOT BY references are rejected at compile time', {'query': q}, got, 'CompilationError')
+
+
 def run(tier, seed):
     res = Result('aggregate queries grouped by exactly the two pivot columns on full / sparse / duplicate-key / single-row / empty tables; both key orders; '
                  '1-3 remaining aggregate columns; pivot columns in any target positions; by name and by position; distinct = distinct query')
@@ -133,6 +150,7 @@ def run(tier, seed):
         res.case(repr(case), {'case': repr(case)[:160]})
         if bad:
             res.violation('h15:' + bad[0][:50] + ':' + bad[1]['query'][:70], bad[0], bad[1], bad[2], bad[3])
+    invalid_refs(res)
     return res.asdict()
 
 
